@@ -38,6 +38,19 @@ pub const EXHAUSTIVE: [&str; 14] = [
     "tuple(mirror<u64>,collapse<owned<()>>,collapse<string>)",
 ];
 
+pub const MARATHON: [&str; 10] = [
+    "string",
+    "pairs<string,optimized>",
+    "collapse<pairs<string,list>>",
+    "slice<mirror<u8>>",
+    "slice<pairs<string>,optimized>",
+    "columns<mirror<u8>,optimized>",
+    "columns<string>",
+    "option<string>",
+    "huffman<u8>",
+    "codec-dict",
+];
+
 fn ex_len(tier: Tier) -> u64 {
     tier.pick(4, 6, 2)
 }
@@ -48,6 +61,8 @@ fn jobs(plan: &Plan) -> Vec<Job> {
     v.extend(entry_jobs(plan, "C02", "long", t.pick(2, 24, 0), |_| true));
     v.extend(entry_jobs(plan, "C02", "exhaustive", ex_len(t) + 1, |d| EXHAUSTIVE.contains(&d.label)));
     v.extend(stack_jobs(plan, "C02", "stack", t.pick(10, 120, 0), |_| true));
+    // marathon: tens of thousands of pushes (counters wider than 8 / 16 bits, many reallocations)
+    v.extend(entry_jobs(plan, "C02", "marathon", t.pick(1, 3, 0), |d| MARATHON.contains(&d.label)));
     v
 }
 
@@ -182,6 +197,7 @@ pub fn run<E: Entry>(ctx: &mut Ctx) {
         "short" => random_history::<E>(ctx, false),
         "long" => random_history::<E>(ctx, true),
         "exhaustive" => exhaustive::<E>(ctx),
+        "marathon" => marathon::<E>(ctx),
         w => panic!("harness: unknown C02 workload {w}"),
     }
 }
@@ -269,6 +285,53 @@ fn random_history<E: Entry>(ctx: &mut Ctx, long: bool) {
     }
     ctx.count("rereads", rereads);
     ctx.cover(&format!("entry:{}", E::label()));
+    ctx.end_history();
+}
+
+/// Many pushes of small values; sampled re-reads on the way, a full sweep at the end.
+fn marathon<E: Entry>(ctx: &mut Ctx) {
+    let n = ctx.tier.pick(70_000, 300_000, 50) as usize;
+    let pool = gen_pool::<E>(ctx, Dom::new(Kind::Tiny), 64);
+    let trained = E::coded() && ctx.hist_no % 2 == 1;
+    let live = if trained { Live::<E>::trained("r", ctx, &pool) } else { Some(Live::<E>::new("r")) };
+    let Some(mut live) = live else {
+        ctx.end_history();
+        return;
+    };
+    ctx.log(format!("{n} pushes of values from a pool of {} (form 0), 4 sampled re-reads after each, full sweep every 16384 and at the end", pool.len()));
+    let mut aux = E::R::default();
+    for k in 0..n {
+        let v = &pool[(k * 7 + k / 64) % pool.len()];
+        let r = &mut live.r;
+        match panics::catch(|| E::push(r, v, 0, &mut aux)) {
+            Ok(idx) => live.issued.push((idx, v.clone())),
+            Err(p) => {
+                ctx.log(format!("push #{k} of {} PANICKED", v.render()));
+                ctx.fail_panic("push", &p);
+                break;
+            }
+        }
+        let len = live.issued.len();
+        let mut bad = false;
+        for j in 0..4 {
+            let pick = if j == 0 { len - 1 } else { ctx.rng.below(len) };
+            if !live.check_one(ctx, pick, Lvl::BASIC, "stability") {
+                bad = true;
+                break;
+            }
+        }
+        if bad {
+            break;
+        }
+        if k % 16384 == 16383 && !live.check_all(ctx, Lvl::BASIC, "stability") {
+            break;
+        }
+    }
+    if !ctx.failed {
+        live.check_all(ctx, Lvl::BASIC, "stability");
+    }
+    ctx.count("marathon_pushes", live.issued.len() as u64);
+    ctx.nontrivial = true;
     ctx.end_history();
 }
 
